@@ -71,6 +71,33 @@ def main(tier):
     n = units.report(run, fx, "C14")
     if n < 5:
         run.anchor_missing("R4.unit-mismatch", "zdt-functions", "only %d unit-typed functions in zoneddatetime.rs" % n)
+    # DifferenceTemporalZonedDateTime: exact-time result balanced to the largest unit, calendar result to hours
+    rule = "R1.zdt-difference-balance-unit"
+    run.rule(rule, "ZonedDateTime::diff_internal_with_provider converts its internal duration twice: with the requested largest "
+                   "unit on the exact-time branch and with the constant Unit::Hour on the calendar branch (the time remainder of "
+                   "a date difference is never folded into 24-hour days: a calendar day can last 23 or 25 hours)")
+    fdz = fx["temporal_rs"].fn("temporal_rs::builtins::core::zoneddatetime::ZonedDateTime::diff_internal_with_provider")
+    if fdz is None:
+        run.anchor_missing(rule, "diff_internal_with_provider", "not found")
+    else:
+        units_ = set()
+        ev = H.Evaluator(fx)
+        ev.inline = lambda p: p.startswith("temporal_rs::error::")
+        try:
+            for dec, res, tr in ev.paths(fdz, [H.Sym("param", (p["name"],)) for p in fdz.params], max_paths=300):
+                for c in tr:
+                    if str(c.parts[0]).endswith("Duration::from_normalized") and len(c.parts[1]) == 2:
+                        units_.add(show(c.parts[1][1]))
+        except H.Budget:
+            units_ = None
+        if units_ is None:
+            run.ok(rule, "units", "too many paths: not decided", fdz.loc, nontrivial=False)
+        else:
+            has_hour = "Unit::Hour" in units_
+            has_largest = any(u.endswith(".largest_unit") for u in units_)
+            run.check(has_hour and has_largest and len(units_) == 2, rule, "units", "balances with %s" % sorted(units_),
+                      "the internal duration is converted with %s; expected exactly the requested largest unit (exact-time branch) "
+                      "and Unit::Hour (calendar branch)" % sorted(units_), fdz.loc)
     # the start of a calendar day is GetStartOfDay (first instant of the day), never "midnight disambiguated"
     rule = "R2.start-of-day-kernel"
     run.rule(rule, "every success path of ZonedDateTime::start_of_day and ZonedDateTime::hours_in_day obtains the day's first "
